@@ -127,10 +127,47 @@ def run(ctx):
         rep.saw(pb)
         n = Norm()
         sx = SymEx(f)
-        outs = sx.run(pb, [SYM('T'), SYM('P'), SYM('o')])
+        # the period and the offset: two float parameters, or the two float fields of a parameter struct (`Interval { period,
+        # offset }`); which is which is decided by the formula (it is not symmetric in them), not by their names
+        from ..sym import STRUCT
+        argv, floats = [SYM('T')], []
+        for i in pb.args()[1:]:
+            ty = f.norm(pb.local_ty(i)).lstrip('&').strip()
+            ti = f.type_info(ty) if ty not in ('f64',) else None
+            if ty == 'f64':
+                nm_ = 'w%d' % len(floats)
+                floats.append(nm_)
+                argv.append(SYM(nm_))
+            elif ti and ti.get('local') and len(ti.get('variants') or []) == 1:
+                flds = []
+                for fl in ti['variants'][0]['fields']:
+                    if fl['ty'] == 'f64':
+                        nm_ = 'w%d' % len(floats)
+                        floats.append(nm_)
+                        flds.append((fl['name'], SYM(nm_)))
+                    else:
+                        flds.append((fl['name'], SYM('arg%d.%s' % (i, fl['name']))))
+                argv.append(STRUCT(ty.split('<')[0], (ti['variants'][0]['name'], 0), flds))
+            else:
+                argv.append(SYM('arg%d' % i))
+        outs = sx.run(pb, argv) if len(floats) == 2 else []
         ok = bool(outs) and not sx.aborted
-        if rep.check(ok, 'R3', 'periodic-loop-free', where(pb), '%d path(s)' % len(outs), 'periodic is not loop-free', 'undecidable-shape'):
-            P, o = n.atom('P'), n.atom('o')
+        if rep.check(ok, 'R3', 'periodic-loop-free', where(pb), '%d path(s)' % len(outs),
+                     'periodic is not loop-free' if len(floats) == 2 else 'periodic does not take a period and an offset (%d float '
+                     'parameters / fields)' % len(floats), 'undecidable-shape'):
+            P, o = n.atom('w0'), n.atom('w1')
+            for out in outs[:1]:
+                # orientation of the two roles: try (period, offset) = (w0, w1), else (w1, w0)
+                try:
+                    g0 = matrix_of(sx, out.st, sx.deep(out.st, out.ret), n)[(0, 2)]
+                    u0 = n.atom('T.0[0,2]')
+                    fits = lambda P_, o_: any(g0.equals(fm) for fm in (n.fn('rem', n.fn('rem', u0 - o_, P_) + P_, P_) + o_,      # noqa: E731
+                                                                       n.fn('rem_euclid', u0 - o_, P_) + o_,
+                                                                       u0 - P_ * n.fn('floor', (u0 - o_) / P_)))
+                    if not fits(P, o) and fits(o, P):
+                        P, o = o, P
+                except (NotNumeric, TypeError, KeyError):
+                    pass
             e = lambda i, j: n.atom('T.0[%d,%d]' % (i, j))
             bad = {'x': None, 'y': None, 'lin': None, 'shape': None}
             for out in outs:
@@ -159,10 +196,18 @@ def run(ctx):
             rep.sample('periodic: %d path(s), each x,y -> ((u - o) rem P + P) rem P + o' % len(outs))
     # distinct source call sites (a helper spliced into its caller shows the same site in two bodies)
     nper = set()
-    for k, s in ctx.cg.callers_of(lambda nm: nm == 'transform::Transform2::periodic'):
+    pkeys = {'transform::Transform2::periodic'} | ({pb.path, getattr(pb, 'key_in_facts', pb.path)} if pb is not None else set())
+    for k, s in ctx.cg.callers_of(lambda nm: nm in pkeys):
         sp = f.bodies[k].blocks[s['bb']]['term'].get('span') or {}
         nper.add((sp.get('file'), sp.get('line'), sp.get('col')))
-    rep.check(len(nper) == 1, 'R3', 'single-wrap-site', where(b), 'one call site of periodic', 'periodic is called from %d places' % len(nper))
+    by_value = any(o['rule'] == 'R3' and o['instance'] == 'wrap-into-[-1/2,1/2)' and o['ok'] for o in rep.obligations)
+    if not nper and by_value:
+        # the wrap has no call site of its own (a method the reference tree does not have, spliced into the placement chain):
+        # that every placement is the product wrapped exactly once was decided on the yielded value above
+        rep.ok('R3', 'single-wrap-site', where(b), 'the wrap is part of the placement expression (decided by value)')
+    else:
+        rep.check(len(nper) == 1, 'R3', 'single-wrap-site', where(b), 'one call site of periodic',
+                  'periodic is called from %d places' % len(nper))
 
 
 def _yielded_placement(ctx, nst, ys, lp, b):
@@ -203,7 +248,10 @@ def _yielded_placement(ctx, nst, ys, lp, b):
                 conds = [c for c in o.pc if c[0] != 'assume']
                 v = nst.arg_values(sx, o, ybb)[0]
                 got = matrix_of(sx, o.st, v, n)
-                lin = [(i, j) for i in range(3) for j in range(3) if (i, j) not in ((0, 2), (1, 2))]
+                # the affine part: rows 0 and 1 (Transform2 is nalgebra's TAffine — products with points use these rows only and
+                # take the bottom row to be (0, 0, 1); composing the linear parts separately leaves the bottom row of the
+                # operation in place instead of multiplying it through, which is the same affine map)
+                lin = [(i, j) for i in range(2) for j in range(2)]
                 if all(got[k].equals(prod(E, S, *k)) for k in lin):
                     pass
                 elif all(got[k].equals(prod(S, E, *k)) for k in lin):
